@@ -4,6 +4,9 @@
 (* the user-visible API calls                                              *)
 (*     set_val (all inputs to a design point) | run_model |                *)
 (*     compute_totals | check_partials.                                    *)
+(* run_model comes in the two strategies a supported coupled solver can    *)
+(* use: sub-solves first (NLBGS default, Newton with solve_subsystems) or  *)
+(* residual evaluation first (NonlinearBlockGS use_apply_nonlinear=True).  *)
 (* Values are abstracted to TAGS: "computed at design point p", "computed  *)
 (* at an FD-perturbed neighbour of p", "accumulated k times", ...          *)
 (* The per-component behaviour (which attributes compute() caches and      *)
@@ -28,12 +31,13 @@ VARIABLES pt,      \* current inputs = design point
           out,     \* tag of the outputs vector
           cache,   \* [Caching comps -> tag]  attributes written by compute(), read by compute_partials()
           lu,      \* [Implicit comps -> tag] matrix the stored factorization belongs to
+          asm,     \* [Implicit comps -> tag] point at which the instance attributes a refactor guard can see were last written
           jac,     \* [Blocks -> [at: tag, mult: Nat]] content of the sub-Jacobian stores
           tot,     \* tag of the last compute_totals result
           hist     \* sequence of API calls so far (observation only)
 
-vars == <<pt, ranAt, out, cache, lu, jac, tot, hist>>
-view == <<pt, ranAt, out, cache, lu, jac, tot>>
+vars == <<pt, ranAt, out, cache, lu, asm, jac, tot, hist>>
+view == <<pt, ranAt, out, cache, lu, asm, jac, tot>>
 
 T(k, p)  == [kind |-> k, p |-> p]
 None     == T("none", "-")
@@ -50,6 +54,7 @@ Init == /\ pt \in Start
         /\ ranAt = "none" /\ out = None /\ tot = None
         /\ cache = [c \in Caching |-> None]
         /\ lu = [c \in Implicit |-> None]
+        /\ asm = [c \in Implicit |-> None]
         /\ jac = [b \in Blocks |-> JacInit(b)]
         /\ hist = <<>>
 
@@ -59,15 +64,29 @@ Log(e) == hist' = IF Len(hist) < MaxHist THEN Append(hist, e) ELSE hist
 SetPoint(p) == /\ p # pt
                /\ pt' = p
                /\ Log(<<"set", p>>)
-               /\ UNCHANGED <<ranAt, out, cache, lu, jac, tot>>
+               /\ UNCHANGED <<ranAt, out, cache, lu, asm, jac, tot>>
 
-(* run_model: every compute()/solve_nonlinear() runs at the current inputs *)
-RunModel == /\ ranAt' = pt
-            /\ out' = At(pt)
-            /\ cache' = [c \in Caching |-> At(pt)]
-            /\ lu' = [c \in Implicit |-> At(pt)]
-            /\ Log(<<"run">>)
-            /\ UNCHANGED <<pt, jac, tot>>
+(* run_model: every compute()/solve_nonlinear() runs at the current inputs.  An implicit component *)
+(* whose solve_nonlinear refreshes its factorization only when a guard on instance attributes     *)
+(* fires (GuardedRefactor) keeps the old factors when another entry point - the residual          *)
+(* evaluation a "residual_first" solver performs before the first sub-solve - has already         *)
+(* overwritten what the guard looks at.  Such a run yields Wrong outputs; the counterexample is   *)
+(* emitted and replayed on the real code before anything is reported.                             *)
+Strategies == {"solve_first", "residual_first"}
+AsmPre(c, st)    == IF st = "residual_first" /\ c \in GuardSeesApply THEN At(pt) ELSE asm[c]
+Refactors(c, st) == c \notin GuardedRefactor \/ lu[c] = None \/ AsmPre(c, st) # At(pt)
+RunLU(st) == [c \in Implicit |-> IF Refactors(c, st) THEN At(pt) ELSE lu[c]]
+RunOK(st) == \A c \in Implicit : RunLU(st)[c] = At(pt)
+EmitBadRun(st) == PrintT(<<"EMIT", ToJson([h |-> Append(hist, <<"run", st>>), culprits |-> {},
+                                           stalelu |-> {c \in Implicit : RunLU(st)[c] # At(pt)}])>>)
+RunModel(st) == /\ ranAt' = pt
+                /\ out' = IF RunOK(st) THEN At(pt) ELSE Wrong
+                /\ cache' = [c \in Caching |-> At(pt)]
+                /\ lu' = RunLU(st)
+                /\ asm' = [c \in Implicit |-> At(pt)]
+                /\ IF RunOK(st) \/ ~EmitModelCex THEN TRUE ELSE EmitBadRun(st)
+                /\ Log(<<"run", st>>)
+                /\ UNCHANGED <<pt, jac, tot>>
 
 Cap(j)      == [j EXCEPT !.mult = IF @ > 3 THEN 3 ELSE @]     \* saturate: finite graph
 SrcTag(b)   == IF ReadsCache(b) THEN cache[b[1]] ELSE At(pt)
@@ -91,6 +110,7 @@ EmitBad == PrintT(<<"EMIT", ToJson([h |-> Append(hist, <<"totals">>),
 Totals == /\ ranAt = pt                    \* derivatives at an un-run point are outside the property
           /\ jac' = NewJac
           /\ lu'  = NewLU
+          /\ asm' = [c \in Implicit |-> IF c \in GuardSeesLinearize THEN At(pt) ELSE asm[c]]
           /\ tot' = IF TotOK THEN At(pt) ELSE Wrong
           /\ IF TotOK \/ ~EmitModelCex THEN TRUE ELSE EmitBad
           /\ Log(<<"totals">>)
@@ -100,19 +120,22 @@ Totals == /\ ranAt = pt                    \* derivatives at an un-run point are
 (* outputs restored by the framework, compute_partials() once more.                              *)
 CheckPartials == /\ ranAt = pt
                  /\ cache' = [c \in Caching |-> Pert(cache[c])]
+                 /\ asm' = [c \in Implicit |-> IF c \in GuardSeesApply \cup GuardSeesLinearize THEN Pert(asm[c]) ELSE asm[c]]   \* FD calls apply_nonlinear at perturbed inputs
                  /\ jac' = [b \in Blocks |-> IF OMDefect /\ Policy(b) = "const"
                                              THEN [at |-> Fd, mult |-> 1]          \* OMCheckJacAlias
                                              ELSE Cap(LinBlock(b))]
                  /\ Log(<<"check">>)
                  /\ UNCHANGED <<pt, ranAt, out, lu, tot>>
 
-Next == (\E p \in Points : SetPoint(p)) \/ RunModel \/ Totals \/ CheckPartials
+Next == (\E p \in Points : SetPoint(p)) \/ (\E st \in Strategies : RunModel(st)) \/ Totals \/ CheckPartials
 Spec == Init /\ [][Next]_vars
 
 (* ---------------------------------------------------------------------- *)
 TypeOK == pt \in Points /\ ranAt \in Points \cup {"none"}
 
-OutputsAtPoint == ranAt = pt => out = At(pt)                                        \* C03, C12, C20
+OutputsAtPoint == ranAt = pt => out \in {At(pt), Wrong}                             \* C03, C12, C20 (Wrong: emitted counterexample)
+OutputsNeverWrong == out # Wrong                                                    \* holds iff no refactor guard can be defeated
+NoDefeatableGuard == GuardedRefactor \cap (GuardSeesApply \cup GuardSeesLinearize) = {}   \* table-level statement
 TotalsFresh    == tot \in {None} \cup {At(p) : p \in Points}                        \* C03: never a Wrong total
 NoStaleRead    == [][Totals => \A b \in Blocks : ReadsCache(b) => cache[b[1]] = At(pt)]_vars
 FactorCurrent  == [][Totals => \A c \in Implicit : lu'[c] = At(pt)]_vars
